@@ -93,6 +93,29 @@ def close_m(a, b):
     return all(_cm(x, y) for x, y in zip(a, b))
 
 
+def close_m_frac(a, b):
+    """correspondence tolerance for metres when coordinates are fractions.Fraction: 1e-7 m absolute (1e-9 relative above 100 m).
+    Python then computes X*X + Y*Y, X - base.X, -x ... exactly where the model (which takes float(v)) rounds each step, so
+    intermediate quantities of Earth-radius size differ in their last bit (1e-9 m) and small local coordinates inherit that
+    absolute difference. Ten thousand times below the property's millimetre; the oracle's bounds are not concerned."""
+    return all(_cm(x, y) or (math.isfinite(x) and math.isfinite(y) and abs(x - y) <= 1e-7) for x, y in zip(a, b))
+
+
+def close_geo_frac(a, b):
+    """as close_geo, with the longitude compared modulo 360 degrees (a last-bit difference of a Y next to 0 on the
+    antimeridian turns -180 into 180: the same meridian) and the height as in close_m_frac"""
+    lon = _c(a[0], b[0], 1e-10) or (math.isfinite(a[0]) and math.isfinite(b[0]) and dlon(a[0], b[0]) <= 1e-10)
+    return lon and _c(a[1], b[1], 1e-10) and close_m_frac(a[2:3], b[2:3])
+
+
+def corr_close_geo(case):
+    return close_geo_frac if "frac" in (case.get("ty") or ()) else close_geo
+
+
+def corr_close_m(case):
+    return close_m_frac if "frac" in (case.get("ty") or ()) else close_m
+
+
 def base_frame(b):
     """origin (ECEF) and geodetic longitude/latitude (radians) of a base given as ("G"|"E", [x, y, z])"""
     kind, v = b
@@ -120,3 +143,81 @@ def o_unenu(q, b):
     return [O[0] - sl * e - sp * cl * n + cp * cl * u,
             O[1] + cl * e - sp * sl * n + cp * sl * u,
             O[2] + cp * n + sp * u]
+
+
+# ------------------------------------------------------------------------------------------
+# number types of the coordinates handed to the library
+# ------------------------------------------------------------------------------------------
+# A case may carry "ty": [t0, t1, t2]: the Python type in which coordinate slot 0 / 1 / 2 (lon lat hgt, E N U, X Y Z)
+# of EVERY coordinate object of the case (points, bases, positions of tracks, values written by in-place updates) is
+# handed to the library, whenever the value of the slot is exactly representable in that type; otherwise (and without
+# "ty") the value is passed as the Python float it is in the case.  The case itself always holds floats: the position
+# a coordinate object denotes does not depend on the type of the numbers (a height typed 120 is 120 m), so the
+# oracle and the Lean model (which takes float(v)) never look at "ty".
+#   "f" float | "int" Python int | "bool" True/False (values 0, 1) | "i64" numpy.int64 | "f64" numpy.float64
+#   | "frac" fractions.Fraction (every finite double is one)
+# Not in the class: numpy.float32 / numpy.int32 and narrower. Under NumPy >= 2 promotion (Python floats are "weak")
+# float32 coordinates make the library compute in float32 (0.3 m in ECEF) and int32 ECEF coordinates overflow in X*X:
+# the precision of the result is that of the caller's type, a statement about the property cannot be made there.
+NUM_TYPES = ("f", "int", "bool", "i64", "f64", "frac")
+INT_LIKE = ("int", "bool", "i64")
+
+
+def wrap_num(v, t):
+    """the float v as a number of type t (when exactly representable), else v itself"""
+    if t == "f" or t is None or not isinstance(v, float) or not math.isfinite(v):
+        return v
+    if t == "f64":
+        import numpy
+        return numpy.float64(v)
+    if t == "frac":
+        from fractions import Fraction
+        return Fraction(v)
+    if v != math.floor(v) or abs(v) >= 2.0 ** 31:
+        return v
+    if t == "bool" and v in (0.0, 1.0):
+        return bool(v)
+    if t == "i64":
+        import numpy
+        return numpy.int64(int(v))
+    return int(v)           # "int", and "bool" for an integral value other than 0 / 1
+
+
+def wrap3(vals, ty):
+    """the three coordinates of one object in the types of the case"""
+    if not ty:
+        return list(vals)
+    return [wrap_num(v, t) for v, t in zip(vals, ty)]
+
+
+def rand_ty(rng):
+    """a type assignment for the three coordinate slots, never all-float"""
+    r = rng.random()
+    if r < 0.35:
+        ty = ["f", "f", rng.choice(["int", "int", "int", "i64", "frac", "bool"])]     # heights typed by hand, integer altitude columns
+    elif r < 0.70:
+        t = rng.choice(["int", "int", "i64", "frac", "f64"])
+        ty = [t, t, t]
+    else:
+        ty = [rng.choice(NUM_TYPES) for _ in range(3)]
+    if all(t == "f" for t in ty):
+        ty[rng.randrange(3)] = "int"
+    return ty
+
+
+def fit3(cls, v, ty, rng=None):
+    """the value of an object of class cls ("G" | "E" | "N") moved (by less than a degree / a metre) so that the int-like slots of
+    ty apply: integral longitudes, latitudes (towards the equator), heights / metres; 0 or 1 for "bool". Deterministic for rng=None
+    (equal values stay equal)."""
+    out = list(v)
+    for c, t in enumerate(ty):
+        if t not in INT_LIKE or not math.isfinite(out[c]):
+            continue
+        if t == "bool" and cls != "E" and rng is not None and rng.random() < 0.7:      # (an ECEF position of 0s and 1s is the centre of the Earth)
+            out[c] = float(rng.random() < 0.5)
+        elif cls == "G" and c == 1:
+            out[c] = float(math.trunc(out[c]))
+        else:
+            out[c] = float(round(out[c]))
+        out[c] = out[c] + 0.0          # no -0.0
+    return out
